@@ -382,7 +382,7 @@ impl Command {
         }
 
         // Signature check for root
-        let threshold = signed_root
+        let root_role = signed_root
             .signed()
             .signed
             .roles
@@ -392,10 +392,24 @@ impl Command {
                 role: RoleType::Root,
                 threshold: 0,
                 actual: 0,
-            })?
-            .threshold
-            .get();
-        let signature_count = signed_root.signed().signatures.len();
+            })?;
+        let threshold = root_role.threshold.get();
+        // Only signatures by keys that this root.json itself authorizes for the root role count
+        // towards its threshold. Signatures added for cross-signing are made by the keys of another
+        // root.json and say nothing about whether this file verifies under its own keys.
+        let signature_count = signed_root
+            .signed()
+            .signatures
+            .iter()
+            .filter(|signature| {
+                root_role.keyids.contains(&signature.keyid)
+                    && signed_root
+                        .signed()
+                        .signed
+                        .keys
+                        .contains_key(&signature.keyid)
+            })
+            .count();
         if threshold > signature_count as u64 {
             // Return an error when the "ignore-threshold" flag wasn't set
             if !ignore_threshold {
